@@ -51,6 +51,9 @@ var (
 )
 
 func freeGate(name string, kv ...any) {
+	if hooksOff.Load() {
+		return
+	}
 	if !perturbOn.Load() {
 		return
 	}
@@ -68,6 +71,9 @@ func freeGate(name string, kv ...any) {
 }
 
 func freeTrace(ev string, kv ...any) {
+	if hooksOff.Load() {
+		return
+	}
 	t := curTracer.Load()
 	if t == nil {
 		return
